@@ -85,3 +85,100 @@ func runConfigKeyAgreement(c *eng.Ctx, rule string) {
 	}
 	c.Floor(55)
 }
+
+// configWire is one configuration key and the Config field (by owner type and name) it is read into.
+type configWire struct{ key, owner, field string }
+
+// The repository's own wiring, read off server/config.go and frozen: the documented key on the left must end up in the
+// field on the right, on the branch where the key is set. A key read into another field, read under the negated test, or
+// not read at all leaves the setting at its default — for the switches below that means the feature the property is
+// about is silently off (or on).
+var configWires = map[string][]configWire{
+	"C15": {
+		{"tls.client.auth.enabled", "Config", "TLSClientAuth"}, {"tls.client.auth.ca", "Config", "TLSClientAuthCA"},
+		{"tls.client.authz.enabled", "Config", "TLSClientAuthz"}, {"tls.client.authz.model", "Config", "TLSClientAuthzModel"}, {"tls.client.authz.policy", "Config", "TLSClientAuthzPolicy"},
+	},
+	"C19": {{"telemetry.enabled", "TelemetryConfig", "Enabled"}, {"telemetry.interval.seconds", "TelemetryConfig", "IntervalSeconds"}},
+	"C18": {{"activity.stream.enabled", "ActivityStreamConfig", "Enabled"}, {"activity.stream.publish.timeout", "ActivityStreamConfig", "PublishTimeout"}},
+	"C16": {{"streams.concurrency.control", "StreamsConfig", "ConcurrencyControl"}},
+	"C17": {{"streams.encryption", "StreamsConfig", "Encryption"}},
+	"C09": {
+		{"streams.retention.max.bytes", "StreamsConfig", "RetentionMaxBytes"}, {"streams.retention.max.messages", "StreamsConfig", "RetentionMaxMessages"},
+		{"streams.retention.max.age", "StreamsConfig", "RetentionMaxAge"}, {"streams.cleaner.interval", "StreamsConfig", "CleanerInterval"},
+		{"streams.segment.max.bytes", "StreamsConfig", "SegmentMaxBytes"}, {"streams.segment.max.age", "StreamsConfig", "SegmentMaxAge"},
+	},
+	"C08": {{"streams.compact.enabled", "StreamsConfig", "Compact"}, {"streams.compact.max.goroutines", "StreamsConfig", "CompactMaxGoroutines"}},
+	"C04": {{"clustering.min.insync.replicas", "ClusteringConfig", "MinISR"}, {"clustering.replication.max.bytes", "ClusteringConfig", "ReplicationMaxBytes"}},
+	"C02": {{"clustering.replica.max.lag.time", "ClusteringConfig", "ReplicaMaxLagTime"}},
+	"C11": {{"cursors.stream.partitions", "CursorsStreamConfig", "Partitions"}, {"cursors.stream.replication.factor", "CursorsStreamConfig", "ReplicationFactor"}},
+	"C12": {{"groups.consumer.timeout", "GroupsConfig", "ConsumerTimeout"}, {"groups.coordinator.timeout", "GroupsConfig", "CoordinatorTimeout"}},
+}
+
+// ruleConfigWiring: for each wire of the property, some function of package server reads the key with a viper getter on the
+// true edge of IsSet(<same key>) and stores the value (conversions allowed) into the named field.
+func ruleConfigWiring(c *eng.Ctx, rule string) {
+	c.Rule(rule, "K6")
+	p := c.P
+	for _, w := range configWires[c.Prop] {
+		ok, where, why := false, "", "no viper getter reads the key"
+		for _, fn := range p.Funcs {
+			if fn.Pkg == nil || ir.Short(fn.Pkg.Pkg.Path()) != "server" {
+				continue
+			}
+			var set []eng.Edge
+			eng.Instrs(fn, func(in ssa.Instruction) {
+				if call, isCall := in.(*ssa.Call); isCall && eng.CalleeRef(&call.Call) == viperPkg+".Viper.IsSet" {
+					if k, isK := constString(call.Call.Args[1]); isK && k == w.key {
+						set = append(set, eng.BoolEdges(fn, eng.Same(call), true)...)
+					}
+				}
+			})
+			eng.Instrs(fn, func(in ssa.Instruction) {
+				call, isCall := in.(*ssa.Call)
+				if !isCall || ok || !strings.HasPrefix(eng.CalleeRef(&call.Call), viperPkg+".Viper.Get") || len(call.Call.Args) < 2 {
+					return
+				}
+				if k, isK := constString(call.Call.Args[1]); !isK || k != w.key {
+					return
+				}
+				where = c.Pos(call)
+				// follow the value through conversions to a field store
+				var stored []*ssa.Store
+				var walk func(v ssa.Value, depth int)
+				walk = func(v ssa.Value, depth int) {
+					if depth > 3 || v.Referrers() == nil {
+						return
+					}
+					for _, r := range *v.Referrers() {
+						switch x := r.(type) {
+						case *ssa.Store:
+							if x.Val == v {
+								stored = append(stored, x)
+							}
+						case *ssa.Convert:
+							walk(x, depth+1)
+						case *ssa.ChangeType:
+							walk(x, depth+1)
+						case *ssa.BinOp:
+							walk(x, depth+1)
+						}
+					}
+				}
+				walk(call, 0)
+				why = "the value read for the key is not stored into " + w.owner + "." + w.field
+				for _, st := range stored {
+					fa, isFA := st.Addr.(*ssa.FieldAddr)
+					if !isFA || eng.FieldNameOf(fa) != w.field || ownerName(fa) != w.owner {
+						continue
+					}
+					if g, _ := eng.GuardedBy(fn, st, set); g && len(set) > 0 {
+						ok = true
+					} else {
+						why = "the store into " + w.owner + "." + w.field + " is not on the branch where the key is set"
+					}
+				}
+			})
+		}
+		c.Check(ok, "configuration key "+w.key+" reaches "+w.owner+"."+w.field, where, "read under IsSet(key) and stored into the field", why+": the documented setting `"+w.key+"` has no effect and the server runs with the default")
+	}
+}
